@@ -633,3 +633,67 @@ Proof.
   intros Hr Hz. pose proof (forall_comps_spec _ chk_syl_ok_all ci cm cr ct Hr) as H.
   unfold chk_syl_ok in H. now rewrite Hz in H.
 Qed.
+
+(* ------------------------------------------------------------------ *)
+(* Source lines in any style (quoted fields, runs of delimiters, trailing
+   comments): parse_line depends on the line only through three token views -
+   the first two non-empty delimiter fields and the comma/white-space tokens
+   after the first two, all with quotes trimmed. *)
+
+Fixpoint parse_syl_trimmed (ts : list (list N)) : option (list N) :=
+  match ts with
+  | [] => Some []
+  | t :: rest =>
+      match t with
+      | [] => parse_syl_trimmed rest
+      | c :: _ =>
+          if c =? HASH then Some []
+          else match parse_chars t with
+               | inr _ => None
+               | inl v => match parse_syl_trimmed rest with Some vs => Some (v :: vs) | None => None end
+               end
+      end
+  end.
+
+Lemma parse_syl_tokens_trimmed toks : parse_syl_tokens toks = parse_syl_trimmed (map trim_q toks).
+Proof.
+  induction toks as [|t ts IH]; [reflexivity|]. cbn [map parse_syl_tokens parse_syl_trimmed].
+  destruct (trim_q t) as [|c t']; [exact IH|].
+  destruct (c =? HASH); [reflexivity|]. destruct (parse_chars (c :: t')); [|reflexivity]. now rewrite IH.
+Qed.
+
+(* the syllable tokens, then nothing or a token that starts a comment (whatever follows it) *)
+Definition comment_tail (tail : list (list N)) : Prop :=
+  tail = [] \/ exists t rest, tail = (HASH :: t) :: rest.
+
+Lemma parse_syl_trimmed_spells vs tail :
+  Forall (fun v => spell v <> [] /\ parse_chars (spell v) = inl v) vs -> comment_tail tail ->
+  parse_syl_trimmed (map spell vs ++ tail) = Some vs.
+Proof.
+  intros H T. induction vs as [|v vs IH].
+  - cbn [map app]. destruct T as [->|(t & rest & ->)]; [reflexivity|].
+    cbn [parse_syl_trimmed]. now rewrite N.eqb_refl.
+  - inversion H as [|v0 l0 [Hne Hp] Hvs]; subst. cbn [map app parse_syl_trimmed].
+    destruct (spell v) as [|c t] eqn:E; [contradiction|].
+    assert (Hc : c <> HASH).
+    { assert (Hin : In c (c :: t)) by now left. rewrite <- E in Hin.
+      apply spell_plain, char_plain_spec in Hin. destruct Hin as (_ & _ & Hh & _). exact Hh. }
+    destruct (N.eqb_spec c HASH); [contradiction|]. rewrite Hp, (IH Hvs). reflexivity.
+Qed.
+
+Theorem parse_line_by_tokens d keep line r f0 f1 more tail :
+  srec_wf r = true ->
+  fields (N.eqb d) line = f0 :: f1 :: more ->
+  trim_q f0 = sr_phrase r -> trim_q f1 = dec_N (sr_freq r) ->
+  map trim_q (skipn 2 (fields (fun c => (c =? COMMA) || is_ws c) line)) = map spell (sr_syls r) ++ tail ->
+  comment_tail tail ->
+  parse_line d keep line = Some (zero_word_freq keep r).
+Proof.
+  intros Hw F T0 T1 TS CT. pose proof (srec_wf_spec r Hw) as W.
+  unfold parse_line. rewrite F, T0, T1.
+  rewrite (parse_col_dec_N U32) by (unfold fits_nonneg, U32; cbn [fst snd]; pose proof (sw_freq r W);
+                                    change (2 ^ 32) with 4294967296; assumption).
+  rewrite parse_syl_tokens_trimmed, TS, (parse_syl_trimmed_spells _ _ (sw_syls r W) CT).
+  unfold zero_word_freq. destruct ((len_N (sr_phrase r) =? 1) && negb keep); [reflexivity|].
+  destruct r; reflexivity.
+Qed.
